@@ -600,6 +600,25 @@ func (c *Ctx) summarizeContractAt(ws *writeSummary, ct *Contract, f *ssa.Functio
 			c.summarizeTypeItem(ws, m)
 			continue
 		}
+		// param.field
+		if i := strings.IndexByte(m, '.'); i > 0 && !strings.ContainsAny(m, " ([") {
+			if a := argOf(m[:i]); a != nil {
+				stT := deref(a.Type())
+				if sty, ok := stT.Underlying().(*types.Struct); ok {
+					done := false
+					for k := 0; k < sty.NumFields(); k++ {
+						if sty.Field(k).Name() == m[i+1:] {
+							fam, _ := c.famField(stT, k)
+							ws.write(fam, a, region)
+							done = true
+						}
+					}
+					if done {
+						continue
+					}
+				}
+			}
+		}
 		ws.top = true
 	}
 }
